@@ -508,15 +508,27 @@ def _do(resp, c, ev):
         ev['after'] = sorted([k.lower(), v] for k, v in resp.headers.items())
 
 
-def execute(iface, sd, calls, media='application/json'):
+# POSIX TZ specifications (no zoneinfo database needed): every history runs under one of them
+TIMEZONES = ('UTC', 'EST5', 'IST-5:30', 'NZST-12', 'JST-9')
+
+
+def execute(iface, sd, calls, media='application/json', tz='UTC'):
     """Run `calls` on a real Response inside a real App call; then echo the cookies to a second request.
     Returns the trace for RespHeadersTrace (calls + observations + one final emit event)."""
     real = time.time
+    oldtz = os.environ.get('TZ')
     time.time = FakeClock(1700000000 + 9973 * len(calls)).time
+    os.environ['TZ'] = tz           # the process time zone must not matter: a naive datetime denotes UTC (documented)
+    time.tzset()
     try:
-        return _execute(iface, sd, calls, media)
+        return _execute(iface, sd, calls, media)      # (the zone is recorded in the case, not in the trace)
     finally:
         time.time = real
+        if oldtz is None:
+            os.environ.pop('TZ', None)
+        else:
+            os.environ['TZ'] = oldtz
+        time.tzset()
 
 
 def _execute(iface, sd, calls, media):
@@ -1019,6 +1031,14 @@ def run(ctx):
     behaviours = {digest(b): b for b in rs.json}
     if len(behaviours) < nsim:
         raise MachineryError('behaviour export produced only %d behaviours' % len(behaviours))
+    # ... plus, exhaustively, every history of 3 (thorough: 4) calls on the Link header (plain calls in two casings
+    # and append_link): 10^3 resp. 10^4 behaviours
+    rl = ctx.tlc('MC_RespHeaders', ctx.pick('MC_RespHeadersLink.cfg', 'MC_RespHeadersLink4.cfg'), workers=4, timeout=900, count=False)
+    linkb = {digest(b): b for b in rl.json}
+    if len(linkb) != ctx.pick(1000, 10000):
+        raise MachineryError('exhaustive Link export produced %d behaviours' % len(linkb))
+    ctx.extra['exhaustive_link_histories'] = len(linkb)
+    behaviours.update(linkb)
     replayed = mism = nbulk = 0
     pending = []
     for b in behaviours.values():
@@ -1028,8 +1048,9 @@ def run(ctx):
                 c['form'] = BULK_FORMS[nbulk % len(BULK_FORMS)]
                 nbulk += 1
         for iface in ('wsgi', 'asgi'):
-            trace = execute(iface, b['sd'], calls)
-            case = {'origin': 'spec-behaviour', 'iface': iface, 'sd': b['sd'], 'calls': calls}
+            tz = TIMEZONES[replayed % len(TIMEZONES)]
+            trace = execute(iface, b['sd'], calls, tz=tz)
+            case = {'origin': 'spec-behaviour', 'iface': iface, 'sd': b['sd'], 'calls': calls, 'tz': tz}
             keep(trace, case, calls)
             replayed += 1
             m = compare_behaviour(ctx, b, trace, case)
@@ -1073,8 +1094,9 @@ def run(ctx):
         calls = random_history(rng)
         iface = 'wsgi' if i % 2 == 0 else 'asgi'
         sd = rng.random() < 0.5
-        trace = execute(iface, sd, calls)
-        keep(trace, {'origin': 'random', 'iface': iface, 'sd': sd, 'calls': calls}, calls)
+        tz = rng.choice(TIMEZONES)
+        trace = execute(iface, sd, calls, tz=tz)
+        keep(trace, {'origin': 'random', 'iface': iface, 'sd': sd, 'calls': calls, 'tz': tz}, calls)
     ctx.progress('leg B recorded: %d executions, %d distinct traces' % (ctx.evaluations, len(items)))
 
     # ---- TLC judges every distinct trace -------------------------------------------------------------
@@ -1091,7 +1113,7 @@ def run(ctx):
 
 def replay(ctx, case):
     c = case.get('case', case)
-    trace = execute(c['iface'], c['sd'], c['calls'])
+    trace = execute(c['iface'], c['sd'], c['calls'], tz=c.get('tz', 'UTC'))
     for e in trace['ev']:
         print({k: v for k, v in e.items() if k in ('op', 'err', 'exc', 'res', 'after', 'law', 'plain', 'lines', 'echo')})
     judge_all(ctx, [(trace, c)])
